@@ -11,8 +11,10 @@
 (*        2012-04-13; Nsec3HashAlgorithm 2008-03-05; Zonemd* 2024-11-29), or *)
 (*        defined by the RFC the type implements;                            *)
 (*   "o"  optional: a later registration.  `adopted' lists the optional rows *)
-(*        this library version names -- naming such a row and not naming it  *)
-(*        both conform; once adopted it is checked like a required row.       *)
+(*        this library version names; an adopted row is checked like a       *)
+(*        required one.  For an optional row that is not adopted, naming it  *)
+(*        (with the registry's code and name) and not naming it both conform *)
+(*        (TA: the tables with every optional row adopted; Undecided).       *)
 (* `unsure': codes about whose registry NAME this transcription (made        *)
 (* without network access) makes no claim; they are left out of the cases.   *)
 (* Spelling: the RFC / registry spelling; for RCODEs and OPCODEs the         *)
